@@ -183,6 +183,84 @@ func runC07(c *Ctx) {
 		report("C07.K2 lexicographic-priority", FuncKey(synced)+" = (P,height) <lex (own P, tip.H) [version≠0]", synced, ev, atoms, dis, err)
 	}
 
+	// ---- K4 tie-break predicate (LIP-0014 case 4): duplicate ∧ the tip's slot is earlier ∧ the tip
+	// was NOT received within its slot ∧ the new block was. A tip whose receive time is unknown
+	// (it came from syncing / the node has just started) counts as received in time. Slot numbers
+	// are a monotone function of a timestamp; each slot(x) is an integer atom named by x's path.
+	if tb := c.Anchor("pkg/consensus/forkchoice.(*forkChoice).IsTieBreak"); tb != nil {
+		var run *pathRun
+		slotAtom := func(v ssa.Value, eval func(ssa.Value) AVal) (string, bool) {
+			// v is the argument of GetSlotNumber: a header timestamp, or uint32(t.Unix())
+			for {
+				switch x := v.(type) {
+				case *ssa.Convert:
+					v = x.X
+					continue
+				case *ssa.ChangeType:
+					v = x.X
+					continue
+				}
+				break
+			}
+			if cl, ok := v.(*ssa.Call); ok {
+				if callee := cl.Common().StaticCallee(); callee != nil && callee.Name() == "Unix" && len(cl.Common().Args) == 1 {
+					recv := cl.Common().Args[0]
+					if a := eval(recv); a.K != 'o' {
+						return "", false
+					}
+					return "slot(unix(" + run.paths[recv] + "))", run.paths[recv] != ""
+				}
+				return "", false
+			}
+			if a := eval(v); a.K != 'i' {
+				return "", false
+			}
+			return "slot(" + run.paths[v] + ")", run.paths[v] != ""
+		}
+		k := func(e *Env) (bool, string) {
+			run = &pathRun{env: e}
+			run.special = func(v ssa.Value, eval func(ssa.Value) AVal) (AVal, bool) {
+				switch x := v.(type) {
+				case *ssa.Call:
+					// the duplicate test has its own table (K3): one boolean atom here
+					if callee := x.Common().StaticCallee(); callee != nil && FuncKey(callee) == "pkg/consensus/forkchoice.(*forkChoice).isDuplicateBlock" {
+						return AVal{K: 'b', B: e.B("duplicate")}, true
+					}
+					if callee := x.Common().StaticCallee(); callee != nil && callee.Name() == "GetSlotNumber" && len(x.Common().Args) == 2 {
+						name, ok := slotAtom(x.Common().Args[1], eval)
+						if !ok {
+							run.err = "slot number of a value that is not a header timestamp or a receive time"
+							return AVal{K: '?'}, true
+						}
+						return AVal{K: 'i', N: e.I(name)}, true
+					}
+				case *ssa.BinOp:
+					if cst, ok := x.Y.(*ssa.Const); ok && cst.IsNil() && (x.Op.String() == "==" || x.Op.String() == "!=") {
+						if a := eval(x.X); a.K == 'o' && strings.HasSuffix(run.paths[x.X], "lastBlockReceivedAt") {
+							unknown := e.B("unknown(" + run.paths[x.X] + ")")
+							return AVal{K: 'b', B: unknown == (x.Op.String() == "==")}, true
+						}
+					}
+				}
+				return AVal{}, false
+			}
+			res := run.run(tb, objArgs(1))
+			if run.err != "" || len(res) < 1 || res[0].K != 'b' {
+				return false, "cannot interpret: " + run.err
+			}
+			return res[0].B, ""
+		}
+		L, C := "p0.lastHeader.", "p0.currentHeader."
+		spec := func(e *Env) bool {
+			dup := e.B("duplicate")
+			lastInSlot := e.B("unknown(p0.lastBlockReceivedAt)") || e.I("slot(unix(p0.lastBlockReceivedAt))") == e.I("slot("+L+"Timestamp)")
+			curInSlot := e.I("slot(unix(p0.currentBlockReceivedAt))") == e.I("slot("+C+"Timestamp)")
+			return dup && e.I("slot("+L+"Timestamp)") < e.I("slot("+C+"Timestamp)") && !lastInSlot && curInSlot
+		}
+		ev, atoms, dis, err := exhaust(k, spec, 0, nil)
+		report("C07.K4 tie-break-table", FuncKey(tb)+" = duplicate ∧ slot(tip) < slot(new) ∧ ¬(tip received in its slot ∨ receive time unknown) ∧ new received in its slot", tb, ev, atoms, dis, err)
+	}
+
 	// ---- K3 field predicates
 	type pred struct {
 		key  string
